@@ -4,12 +4,27 @@ import json, os
 HERE = os.path.dirname(os.path.abspath(__file__))
 
 CHECKS = {
+ "C09": ("seeded operation histories checked step by step against a vector reference model; tape shrinking and exact replay",
+         "Seeded exploration of list operation histories (8 nodes, 3 lists, 3 iterators, up to 40 operations) with a vector-of-ids reference model compared after every operation: full traversal, every return value, iterator positions, cleared links. History-only: this property has no fault or schedule dimension and the evidence says so.",
+         "Iterators are exercised only while valid by the property's scope (no mutation of their list through another path); ASan/UBSan and a step budget guard memory safety and termination."),
+ "C12": ("seeded pack/unpack sequences with the buffer end injected at a chosen byte; byte-stream reference model; ASan exact-size buffers",
+         "Seeded exploration of pack/unpack operation sequences in which the end of an exact-size heap buffer (the fault) is placed inside a tape-chosen operation at a tape-chosen byte, including exact fit, size 0, NULL pointers and one huge request; buffer image, returned values, zero fill and both counters are compared with a byte-vector model with sticky overflow after every call.",
+         "Only the implemented functions of pack.c can be exercised; total requested bytes stay below 2^31 (the property's scope)."),
+ "C20": ("seeded log histories with counter-jump, allocation-failure and sink faults against a deque-of-256 model; brute-force 2^31 run in the thorough tier",
+         "Seeded exploration of mlog/mlog_nice/mlog_clear/get_line/dump histories with message counts steered to the ring boundaries; the counter word is located in the library's data segment by behaviour and moved to just below its fold point so histories continue across the 2^31 wrap; the thorough tier additionally really logs 2^31 messages and compares the resulting library state with the shortcut.",
+         "The counter jump assumes the log is a circular buffer indexed by the message count modulo 256 (validated by the brute-force run in the thorough tier; if the counter word cannot be located the jump is skipped and reported as a probe)."),
  "C19": ("seeded simulation of a shaft and noisy signal line; integer-position reference model checked after every sample; tape shrinking and exact replay",
          "Seeded exploration of encoder signal histories with line faults (bounce, repeated and missed samples, reversals, garbage) from start positions next to the 8-, 14- and 16-bit wrap points; every reading is compared with an unbounded integer model derived from the state sequence. Sampling, not enumeration.",
          "Model is the property statement (single-bit transition = +-1, latch at detent); the 'within one click' clause is enforced only on histories without two-bit jumps."),
 }
 NA = {
+ "C11": "pure function of one tree shape: the temporary link rewriting is undone within the same call sequence and nothing can run in between; no schedule, clock, fault or history for a simulator to own (DESIGN.md section 5)",
+ "C13": "pure function of (format, channels, rate, frames, prior struct bytes) and of one byte string; nothing to schedule or fault (DESIGN.md section 5)",
+ "C16": "pure functions of one 32/64-bit word; the deciding technique is exhaustive enumeration or SMT, not simulation (DESIGN.md section 5)",
+ "C17": "pure function of the 31-bit state word; exhaustive comparison with 64-bit arithmetic is enumeration, not simulation (DESIGN.md section 5)",
+ "C18": "pure function of one byte array or one string; repeated hex_get_byte calls are a deterministic cursor over that single input (DESIGN.md section 5)",
 }
+PENDING = "claimed in DESIGN.md; its check is not registered in this commit yet (under construction)"
 
 def main():
     checks = []
@@ -25,6 +40,8 @@ def main():
             level_claimed=dict(category="exploration", text=text, design_ref="DESIGN.md section 4 " + pid),
             level_note=note,
             technique=tech))
+    allp = [json.loads(l)["id"] for l in open(os.path.join(HERE, "properties.jsonl"))]
+    na = [dict(property_id=p, reason=NA.get(p, PENDING)) for p in allp if p not in CHECKS]
     m = dict(
         version=1,
         setup_cmd="./check setup",
@@ -37,7 +54,7 @@ def main():
                       serves_properties=sorted(CHECKS),
                       kind_free_text="deterministic simulator: seeded choice tape, cooperative contexts preempted at instrumented atomic operations, simulated clock, fault injection, reference-model and happens-before oracles, tape shrinking, exact replay")],
         checks=checks,
-        not_applicable=[dict(property_id=k, reason=v) for k, v in sorted(NA.items())],
+        not_applicable=na,
         notes="All checks are seeded search (exploration). ./check replay <file> re-executes a minimised tape. known_findings.txt lists recorded and fixed defects.")
     with open(os.path.join(HERE, "MANIFEST.json"), "w") as f:
         json.dump(m, f, indent=1)
